@@ -51,9 +51,15 @@ pub open spec fn blobs_section(b: Seq<BRec>) -> Seq<Field> { seq![Field::U32(b.l
 pub struct VersionFileName { pub id: u64 }
 /// stands for `format!("v{id}")` (R12)
 pub fn version_file_name(id: u64) -> (r: VersionFileName) ensures r.id == id { VersionFileName { id } }
-/// ghost view of the directory: what `current` records, the bytes of the version files and their sections
-pub uninterp spec fn current_id(folder: &Path) -> u64;
+/// ghost view of the directory: the fields of `current`, and the sections of the version files
+pub uninterp spec fn current_fields(folder: &Path) -> Seq<Field>;
 pub uninterp spec fn file_sections(folder: &Path, id: u64) -> Sections;
+/// what persist_version puts into `current` (unit durability, C05.1 / C10.8): version id, checksum of the version file, checksum type 0
+pub open spec fn current_record(id: u64, checksum: u128) -> Seq<Field> { seq![Field::U64(id), Field::U128(checksum), Field::U8(0)] }
+pub open spec fn current_id(folder: &Path) -> u64 { current_fields(folder)[0]->U64_0 }
+/// `std::fs::File::open(folder.join("current"))` + byteorder reads
+#[verifier::external_body]
+pub fn open_current(folder: &Path) -> (r: Result<SectionReader, Error>) ensures r is Ok ==> r->Ok_0.rest == current_fields(folder) { unimplemented!() }
 impl Path {
     #[verifier::external_body]
     pub fn join(&self, name: VersionFileName) -> (r: PathBuf) ensures r.names(self, name.id) { unimplemented!() }
@@ -69,10 +75,6 @@ impl Checksum {
     pub fn into_u128(self) -> (r: u128) ensures r == self.0 { self.0 }
     #[verifier::external_body] pub fn check(&self, expected: Self) -> (r: Result<(), Error>) { unimplemented!() }
 }
-/// get_current_version (unit recover): the id recorded in `current`
-#[verifier::external_body]
-pub fn get_current_version(folder: &Path) -> (r: Result<(VersionId, Checksum), Error>) ensures r is Ok ==> r->Ok_0.0 == current_id(folder) { unimplemented!() }
-
 pub struct SfaReader { pub ghost secs: Sections }
 pub struct Toc { pub ghost secs: Sections }
 pub struct TocEntry { pub ghost fields: Seq<Field> }
@@ -123,6 +125,39 @@ pub fn sort_by_id(v: &mut Vec<(BlobFileId, Checksum)>)
 { }
 
 //@ SUBST `crate :: Error` ==> `Error`
+
+//@ FROM src/version/recovery.rs :: - :: fn get_current_version :: OBL C04.14
+//@ SUBST `crate :: Result < ( VersionId , Checksum ) >` ==> `Result<(VersionId, Checksum), Error>`
+//@ SUBST `use byteorder :: { LittleEndian , ReadBytesExt } ;` ==> ``
+//@ SUBST `std :: fs :: File :: open ( folder . join ( CURRENT_VERSION_FILE ) ) ?` ==> `open_current(folder)?`
+//@ SUBST `folder : & std :: path :: Path` ==> `folder: &Path`
+//@ SUBST `read_u64 :: < LittleEndian >` ==> `read_u64_le`
+//@ SUBST `read_u128 :: < LittleEndian >` ==> `read_u128_le`
+fn get_current_version(folder: &Path) -> /*+*/(r:/*-*/ Result<(VersionId, Checksum), Error>/*+*/)
+    ensures
+        // the record persist_version wrote is read back as it is: version id and version-file checksum
+        r is Ok ==> forall|id: u64, cs: u128| current_fields(folder) == #[trigger] current_record(id, cs) ==> r->Ok_0 == (id, Checksum(cs)),/*-*/
+{
+
+    let mut f = open_current(folder)?;
+    /*+*/let ghost x = f.rest;/*-*/
+
+    let id = f.read_u64_le()?;
+    let checksum = f.read_u128_le()?;
+    let checksum_type = f.read_u8()?;
+    /*+*/proof {
+        assert forall|i: u64, cs: u128| current_fields(folder) == #[trigger] current_record(i, cs) implies id == i && checksum == cs by {
+            assert(x.skip(1)[0] == x[1]); assert(x.skip(1).skip(1)[0] == x[2]);
+        }
+    }/*-*/
+
+    if checksum_type != 0 {
+        return Err(Error::InvalidTag(("ChecksumType", checksum_type)));
+    }
+
+    Ok((id, Checksum::from_raw(checksum)))
+}
+//@ END
 //@ FROM src/version/recovery.rs :: - :: struct RecoveredTable
 struct RecoveredTable {
     id: TableId,
@@ -236,7 +271,8 @@ proof fn lemma_skip3(x: Seq<Field>) requires x.len() >= 3 ensures x.skip(1).skip
 //@ SUBST `for _ in 0 .. table_count {` ==> `for _k in it_t: 0..table_count {`
 //@ SUBST `for _ in 0 .. blob_file_count {` ==> `for _k in it_b: 0..blob_file_count {`
 fn recover(folder: &Path/*+*/, Ghost(v): Ghost<Seq<Seq<Seq<TRec>>>>, Ghost(b): Ghost<Seq<BRec>>, Ghost(tt): Ghost<TreeType>, Ghost(g): Ghost<int>/*-*/) -> /*+*/(r: /*-*/Result<Recovery, Error>/*+*/)
-    requires ({ let secs = file_sections(folder, current_id(folder));
+    requires exists|id: u64, cs: u128| current_fields(folder) == #[trigger] current_record(id, cs),
+        ({ let secs = file_sections(folder, current_id(folder));
         // the version file `current` names holds the image of (v, b, tt, g)
         &&& lookup(secs, SectionName::Tables) == Some(tables_section(v)) && counts_fit(v)
         &&& lookup(secs, SectionName::BlobFiles) == Some(blobs_section(b)) && b.len() <= u32::MAX
